@@ -606,13 +606,13 @@ func (fs FSAuth) AuthCheck(fid *go9p.SrvFid, afid *go9p.SrvFid, aname string) er
 }
 
 func (fs FSAuth) AuthRead(afid *go9p.SrvFid, offset uint64, data []byte) (int, error) {
-	fs.Log = append(fs.Log, Entry{Seq: vs.Seq(), Kind: "call", Op: "AuthRead", Conn: fs.connIdx(afid.Fconn), Token: auxOf(afid).token, Args: fmt.Sprintf("off=%d count=%d", offset, len(data))})
+	fs.Log = append(fs.Log, Entry{Seq: vs.Seq(), Kind: "call", Op: "AuthRead", Conn: fs.connIdx(afid.Fconn), Token: auxOf(afid).token, User: userName(afid.User), Args: fmt.Sprintf("off=%d count=%d", offset, len(data))})
 	n := copy(data, "authdata")
 	return n, nil
 }
 
 func (fs FSAuth) AuthWrite(afid *go9p.SrvFid, offset uint64, data []byte) (int, error) {
-	fs.Log = append(fs.Log, Entry{Seq: vs.Seq(), Kind: "call", Op: "AuthWrite", Conn: fs.connIdx(afid.Fconn), Token: auxOf(afid).token, Args: fmt.Sprintf("off=%d count=%d", offset, len(data))})
+	fs.Log = append(fs.Log, Entry{Seq: vs.Seq(), Kind: "call", Op: "AuthWrite", Conn: fs.connIdx(afid.Fconn), Token: auxOf(afid).token, User: userName(afid.User), Args: fmt.Sprintf("off=%d count=%d", offset, len(data))})
 	return len(data), nil
 }
 
